@@ -14,6 +14,7 @@ import (
 	_ "fxmc/props/c10"
 	_ "fxmc/props/c11"
 	_ "fxmc/props/c13"
+	_ "fxmc/props/c14"
 	_ "fxmc/props/c15"
 	_ "fxmc/props/c18"
 )
